@@ -91,6 +91,31 @@ def work(chunk):
     return {"viol": viol[:40], "n": n, "shapes": shapes}
 
 
+def reuse_leg(ctx):
+    """One Scheduler object used for several executions: each root context is configured + THIS run's context only."""
+    from engine import evloop
+
+    REG = tasks()
+    n = 0
+    for cfg in CONFIG_CTX:
+        for seq in itertools.permutations(RUN_CTX, 3):
+            env = evloop.Env([], context=cfg)
+            try:
+                for i, runctx in enumerate(seq):
+                    out = env.run(REG["lvl"]([], PATHS), reuse_scheduler=(i > 0), context=runctx)
+                    n += 1
+                    want_ctx = ref_merge([cfg or {}, runctx])
+                    want = [ref_get(want_ctx, p, "DEF") for p in PATHS]
+                    if out[0] != "ok" or out[1]["body"] != want:
+                        ctx.violation("run-context-leaks-between-executions", {"config_context": cfg, "run_contexts": list(seq[: i + 1])},
+                                      f"scheduler reused; config {cfg}, run contexts so far {seq[: i + 1]}: leaf sees "
+                                      f"{out[1]['body'] if out[0] == 'ok' else out}, expected {want}")
+                        break
+            finally:
+                env.close()
+    return n
+
+
 def run(ctx):
     from engine import seams
     from engine.common import check_harness_errors
@@ -104,8 +129,9 @@ def run(ctx):
     check_harness_errors(res)
     ctx.add_results(res)
     shapes = set().union(*[r["shapes"] for r in res])
+    n_reuse = reuse_leg(ctx)
     return {"coverage": {
-        "evaluations": sum(r["n"] for r in res), "distinct_nontrivial": len(shapes), "paths_per_run": len(PATHS), "exhaustive": True,
+        "evaluations": sum(r["n"] for r in res) + n_reuse, "reused_scheduler_runs": n_reuse, "distinct_nontrivial": len(shapes), "paths_per_run": len(PATHS), "exhaustive": True,
         "rule": f"every chain of 3 nested jobs with update_context overrides from {len(ovs)} dicts (nested, empty, list-valued, absent) x configured "
         "context x run(context=) on the real scheduler; at the leaf every dotted path of <=3 segments over {a,b} plus missing / too-deep paths is "
         "read through get_context in the task body and through expression-valued default arguments; oracle: reference deep merge + path lookup; "
